@@ -101,7 +101,8 @@ def grammar(tier):
                 pats.append(f"as/{{a}}{s1}{{b}}/cs/{{c}}{s2}{{d}}")
         for k in range(1, 6):
             base = "/".join(f"{COLL[i]}/{{{VARS[i]}}}" for i in range(k))
-            pats.append(base + "/config")
+            if k <= 3:          # deeper singleton-suffix patterns: z3 does not decide O4b (reference in regex) even bounded
+                pats.append(base + "/config")
             pats.append(base + f"/{COLL[k]}/{{{VARS[k]}=**}}")
             for sep in seps:
                 pats.append(base + f"/{COLL[k]}/{{{VARS[k]}}}{sep}{{{VARS[k + 1]}}}")
@@ -243,7 +244,7 @@ class _SkipRX(Exception):
     pass
 
 
-RX_MAX_VARS = 6
+RX_MAX_VARS = 5
 
 
 def work(task):
@@ -298,7 +299,7 @@ def work(task):
         r, m = sol.check(*valid)
         rec("twin", "ok" if r == "sat" else "vacuous", t0)
 
-        # patterns with more than 6 variables: z3's sequence solver does not decide O1/O3/O4 within the limits even at
+        # patterns with more than RX_MAX_VARS variables: z3's sequence solver does not decide O1/O3/O4 within the limits even at
         # value length 1; they are decided by the exact engine (O2x on the emitted functions) alone, and this is recorded
         if len(names) > RX_MAX_VARS:
             res.append(("rx-skipped", "info", 0.0, {"variables": len(names)}))
